@@ -101,11 +101,26 @@ def confirmed_realtime(work, make, name):
     return last
 
 
+CONSOLE_MUTANTS = {
+    "C04": [("Mutant_Console_Flag.cfg", "C04_Authentic"), ("Mutant_Console_Sid.cfg", "C04_Authentic")],
+    "C09": [("Mutant_Console_PreInc.cfg", "C09_SeqConsecutive"), ("Mutant_Console_SeqAfterBuild.cfg", "C09_SeqConsecutive")],
+    "C10": [("Mutant_Console_Rebuild.cfg", "C10_SameCommand"), ("Mutant_Console_Temp.cfg", "C10_FinalCode"),
+            ("Mutant_Console_Terminal.cfg", "C10_NoTxAfterTransportFailure")],
+    "C11": [("Mutant_Console_Match.cfg", "C11_Match")],
+}
+
+
 def console_check(pid, tier, seed, work, mc_cfgs, fam_specs, level_note, hs_fams=()):
     t0 = time.time()
     mcs = []
     for module, cfg in mc_cfgs:
         mcs.append(F.model_check(module, cfg, work))
+    killed = []
+    for cfg, inv in (CONSOLE_MUTANTS.get(pid, []) if tier != "quick" else []):
+        # each guard of the reference model switched off in turn: TLC must find the invariant it carries violated
+        if not F.expect_violation("MCConsole", cfg, work, inv):
+            raise vlib.Inconclusive("model mutant %s did not violate %s: the invariant is vacuous" % (cfg, inv))
+        killed.append({"cfg": cfg, "violates": inv})
     def hs(fs):
         if (fs.get("opts") or {}).get("blockOnLost"):
             kw = {k: v for k, v in fs.items() if k != "name"}
@@ -121,7 +136,7 @@ def console_check(pid, tier, seed, work, mc_cfgs, fam_specs, level_note, hs_fams
     attach_scripts(viols)
     cov = {
         "states": sum(m["distinct"] for m in mcs), "transitions": sum(m["generated"] for m in mcs),
-        "model_checking": mcs,
+        "model_checking": mcs, "model_mutants_killed": killed,
         "traces_validated_against_impl": sum(f["scripts"] for f in fams),
         "events_validated": sum(f["events"] for f in fams),
         "evaluations": sum(f["scripts"] for f in fams),
@@ -150,11 +165,14 @@ def c09(tier, seed, work):
     a2, i2 = suite_for(seed, 4)
     if tier == "quick":
         fams = [dict(name="c09-sess", insess=True, cmds="CmdsAB", maxcalls=2, maxatt=2, kinds="KindsRetry", auth=a, integ=i),
+                # X: a request the library refuses to serialise (no transmission, no sequence number used up)
+                dict(name="c09-refused", insess=True, cmds="CmdsAX", maxcalls=3, maxatt=2, kinds="KindsRetry", auth=a, integ=i, codes="CodesOkBusy"),
                 dict(name="c09-nosess", insess=False, cmds="CmdsAB", maxcalls=2, maxatt=2, kinds="KindsRetryNS", auth=1, integ=1)]
         mc = [("MCConsole", "MC_Console_sess_quick.cfg"), ("MCConsole", "MC_Console_nosess_quick.cfg")]
     else:
         fams = [dict(name="c09-sess", insess=True, cmds="CmdsAB", maxcalls=2, maxatt=3, kinds="KindsRetry", auth=a, integ=i),
                 dict(name="c09-sess2", insess=True, cmds="CmdsAR", maxcalls=3, maxatt=2, kinds="KindsRetry", auth=a2, integ=i2),
+                dict(name="c09-refused", insess=True, cmds="CmdsABX", maxcalls=3, maxatt=2, kinds="KindsRetry", auth=a, integ=i),
                 dict(name="c09-nosess", insess=False, cmds="CmdsAB", maxcalls=2, maxatt=3, kinds="KindsRetryNS", auth=1, integ=1)]
         mc = [("MCConsole", "MC_Console_sess.cfg"), ("MCConsole", "MC_Console_nosess.cfg")]
     res = console_check("C09", tier, seed, work, mc, fams, COMMON_ASSUME,
@@ -212,10 +230,10 @@ def c04(tier, seed, work):
     a, i = suite_for(seed, 3)
     if tier == "quick":
         a2, i2 = suite_for(seed, 6)
-        fams = [dict(name="c04-forge", insess=True, cmds="CmdsAB", maxcalls=2, maxatt=2, kinds="KindsForge", auth=a, integ=i),
+        fams = [dict(name="c04-forge", insess=True, cmds="CmdsAB", maxcalls=2, maxatt=2, kinds="KindsForge", auth=a, integ=i, codes="CodesOkErr"),
                 # group-extension (DCMI) commands and a command without a response body take other paths through the checks
-                dict(name="c04-forge-group", insess=True, cmds="CmdsGH", maxcalls=2, maxatt=2, kinds="KindsForge", auth=a2, integ=i2),
-                dict(name="c04-forge-nobody", insess=True, cmds="CmdsAC", maxcalls=2, maxatt=2, kinds="KindsForge", auth=a, integ=i)]
+                dict(name="c04-forge-group", insess=True, cmds="CmdsGH", maxcalls=1, maxatt=3, kinds="KindsForge", auth=a2, integ=i2, codes="CodesOkErr"),
+                dict(name="c04-forge-nobody", insess=True, cmds="CmdsAC", maxcalls=1, maxatt=3, kinds="KindsForge", auth=a, integ=i, codes="CodesOkErr")]
         mc = [("MCConsole", "MC_Console_sess_quick.cfg")]
     else:
         fams = [dict(name="c04-forge-%d-%d" % s, insess=True, cmds="CmdsAB", maxcalls=2, maxatt=2, kinds="KindsForge", auth=s[0], integ=s[1])
@@ -382,7 +400,8 @@ def c16(tier, seed, work):
 
 def c14(tier, seed, work):
     fams = [dict(name="c14-plain", module="MCGenSdr", cfg_tpl="Gen_Cipher.cfg.tpl", family="plain", tier=tier, seed=seed),
-            dict(name="c14-events", module="MCGenSdr", cfg_tpl="Gen_Cipher.cfg.tpl", family="events", tier=tier, seed=seed)]
+            dict(name="c14-events", module="MCGenSdr", cfg_tpl="Gen_Cipher.cfg.tpl", family="events", tier=tier, seed=seed),
+            dict(name="c14-faults", module="MCGenSdr", cfg_tpl="Gen_Cipher.cfg.tpl", family="faults", tier=tier, seed=seed)]
     muts = [("SdrWalk", "Mutant_SdrWalk_Compare.cfg", "ResultIsSnapshot"), ("SdrWalk", "Mutant_SdrWalk_KeyByOwnID.cfg", "ResultIsSnapshot")]
     return walk_check("C14", tier, seed, work, [("SdrWalk", "MC_SdrWalk_quick.cfg" if tier == "quick" else "MC_SdrWalk.cfg")],
                       muts if tier != "quick" else [], fams,
